@@ -321,10 +321,9 @@ def judge(p, status, vals, repeat_items):
     count = p['count']
     j = float(p['jitter']) if p['jitter'] else 0.0
     ref = Reference(start, stop, factor)
-    cshape = 'count=None' if count is None else ('count=repeat' if count == 'repeat' else 'count=int')
     sshape = 'start>0' if start else ('start=0, stop<1' if stop < 1 else 'start=0, stop>=1')
     if status.startswith('exc:'):
-        return [('raised %s (valid parameters, %s, %s)' % (status[4:], cshape, sshape),
+        return [('raised %s (valid parameters, %s)' % (status[4:], 'default count' if count is None else 'count given'),
                  'values', [status, shown])]
     # -- how many
     if count == 'repeat':
